@@ -97,6 +97,8 @@ func VerifC19Middleware() {
 			fallbackUsed = true
 			return nil
 		}))
+	} else if rt.Bool("nilFallback") {
+		opts = append(opts, WithBlockFallback(nil)) // an explicitly nil fallback counts as not configured
 	}
 	h := SentinelMiddleware(opts...)(func(c echo.Context) error { return verifHandlerMode(o, mode) })
 	c := &verifCtx{}
